@@ -257,13 +257,22 @@ PAIRS = [("4326", "3857"), ("3857", "4326"), ("4326", "6933"), ("6933", "3857"),
 SEPARABLE = [("4326", "3857"), ("3857", "4326"), ("4326", "6933"), ("6933", "4326"), ("3857", "6933"), ("6933", "3857")]
 
 
+# a *regional* geographic CRS (GDA94 lon/lat) used for rasters beyond its declared area of use (lat -60.6..-8.5,
+# lon 93.4..173.3) - legal, the projection library converts such coordinates; partner CRSs are global
+REGIONAL = [("4283", "3857"), ("3857", "4283"), ("4283", "6933"), ("6933", "4283"), ("4283", "4326"), ("4326", "4283"), ("4283", "sinu")]
+
+
 @st.composite
-def s_diff(draw, wide=False):
-    a, b = draw(st.sampled_from(SEPARABLE if wide else PAIRS))
+def s_diff(draw, wide=False, regional=False):
+    a, b = draw(st.sampled_from(REGIONAL if regional else SEPARABLE if wide else PAIRS))
     A0, B0 = CRS_POOL[a][1], CRS_POOL[b][1]
     lo = (max(A0[0], B0[0]) + 1, max(A0[1], B0[1]) + 1, min(A0[2], B0[2]) - 1, min(A0[3], B0[3]) - 1)
-    lon = draw(st.floats(lo[0], lo[2]))
-    lat = draw(st.floats(lo[1], lo[3]))
+    if regional:
+        lon = draw(st.one_of(st.floats(95.0, 172.0), st.floats(60.0, 92.0), st.floats(-170.0, -100.0)))
+        lat = draw(st.one_of(st.floats(-8.0, 25.0), st.floats(-74.0, -61.0), st.floats(30.0, 70.0), st.floats(-9.5, -7.5)))
+    else:
+        lon = draw(st.floats(lo[0], lo[2]))
+        lat = draw(st.floats(lo[1], lo[3]))
     # resolution in metres (converted to degrees for geographic CRSs)
     res_m = draw(st.sampled_from([20000.0, 50000.0, 100000.0] if wide else [10.0, 30.0, 100.0, 1000.0, 5000.0]))
     if wide:
@@ -406,4 +415,5 @@ def o_diff(case, T):
 def build(chk: Check) -> None:
     chk.sub("same_crs", o_same, cov={"quick": 1500, "thorough": 100000}, strategy=s_same(), n={"quick": 5000, "thorough": 300000})
     chk.sub("diff_crs", o_diff, strategy=s_diff(), n={"quick": 700, "thorough": 40000}, shrink=False)
+    chk.sub("diff_crs_regional", o_diff, strategy=s_diff(regional=True), n={"quick": 250, "thorough": 12000}, shrink=False)
     chk.sub("diff_crs_wide", o_diff, strategy=s_diff(wide=True), n={"quick": 300, "thorough": 15000}, shrink=False)
